@@ -2,6 +2,7 @@
 # Re-runs every stored seeded change (seeded/<id>/patch.diff + demonstration) against the current checks.
 cd "$(dirname "$0")/.." || exit 2
 for d in seeded/*/; do
+  if grep -q superseded_by_fix "$d/meta.json"; then echo "$(basename "$d") superseded by a repository fix (kept for the record)"; continue; fi
   id=$(basename "$d"); prop=$(python3 -c "import json;print(json.load(open('$d/meta.json'))['breaks_property'])")
   python3 tools/seed_verify.py "$prop" "$d" --name "$id" > "/tmp/reseed-$id.json" 2>&1
   python3 -c "
